@@ -5,7 +5,7 @@
 // configured minimum number of rounds after the previous one, and without forcing it starts
 // at the first round after the configured rounds per epoch.
 //
-// Seam: the real epochStart/metachain.NewEpochStartTrigger (in-memory storers, stub notifier,
+// Seam: the real epochStart/metachain.NewEpochStartTrigger (write-only stub storers, stub notifier,
 // stub status handler, mock marshalizer/hasher) driven through Update, ForceEpochStart,
 // SetProcessed; observed through Epoch, IsEpochStart, EpochStartRound. An export file
 // (ovl/export/epochStart/metachain/c34.go) reads nextEpochStartRound & co for the state key.
@@ -41,7 +41,7 @@ import (
 	"github.com/ElrondNetwork/elrond-go/epochStart/metachain"
 	"github.com/ElrondNetwork/elrond-go/epochStart/mock"
 	"github.com/ElrondNetwork/elrond-go/storage"
-	"github.com/ElrondNetwork/elrond-go/testscommon/genericMocks"
+	"github.com/ElrondNetwork/elrond-go/testscommon"
 	"verif/engine/mc"
 )
 
@@ -120,7 +120,7 @@ type state struct {
 
 func newSystem(idx int, rpe, min int64, horizon uint64) *system {
 	y := &system{idx: idx, rpe: rpe, min: min, horizon: horizon}
-	for _, d := range []uint64{0, 1, 2, 3} {
+	for _, d := range []uint64{1, 2, 3, 0} {
 		for _, n := range []uint64{1, 100} {
 			y.ops = append(y.ops, op{kind: kUpdate, delta: d, nonce: n})
 			y.menu = append(y.menu, fmt.Sprintf("Update(round+%d,nonce=%d)", d, n))
@@ -140,7 +140,6 @@ func newSystem(idx int, rpe, min int64, horizon uint64) *system {
 }
 
 func (y *system) init() *state {
-	storers := map[dataRetriever.UnitType]storage.Storer{}
 	args := &metachain.ArgsNewMetaEpochStartTrigger{
 		Settings: &config.EpochStartConfig{
 			MinRoundsBetweenEpochs: y.min,
@@ -153,13 +152,10 @@ func (y *system) init() *state {
 		Hasher:             &mock.HasherMock{},
 		AppStatusHandler:   &mock.AppStatusHandlerStub{},
 		Storage: &mock.ChainStorerStub{
+			// write-only for the driven operations (saveState, epoch-start block copies):
+			// a storer that accepts and forgets every Put
 			GetStorerCalled: func(unitType dataRetriever.UnitType) storage.Storer {
-				s, ok := storers[unitType]
-				if !ok {
-					s = genericMocks.NewStorerMock(fmt.Sprint(unitType), 0)
-					storers[unitType] = s
-				}
-				return s
+				return &testscommon.StorerStub{}
 			},
 		},
 	}
@@ -271,7 +267,9 @@ func (s *state) do(o int) (sig, detail string) {
 func (s *state) key() string {
 	v := s.t.VerifC34State()
 	b := make([]byte, 0, 64)
-	for _, x := range []uint64{uint64(v.Epoch), v.CurrentRound, v.CurrEpochStartRound, v.NextEpochStartRound, s.round, uint64(s.forced)} {
+	// The epoch itself is left out: no operation's effect depends on its value (Update adds
+	// one, SetProcessed is fed Epoch()), and the epoch clauses are judged per step.
+	for _, x := range []uint64{v.CurrentRound, v.CurrEpochStartRound, v.NextEpochStartRound, s.round, uint64(s.forced)} {
 		b = strconv.AppendUint(b, x, 10)
 		b = append(b, ' ')
 	}
@@ -318,8 +316,8 @@ func main() {
 			"rounds are non-decreasing (d=0 repeats the round, as CreateNewHeader/ProcessBlock do)",
 		}
 		var systems []*system
-		for _, r := range rpes {
-			for _, m := range mins {
+		for _, m := range []int64{2, 3, 1} { // order only matters for which witness is printed first
+			for _, r := range rpes {
 				systems = append(systems, newSystem(len(systems), r, m, horizon))
 			}
 		}
